@@ -679,7 +679,7 @@ class Item:
         self.log.append({"kind": "desugar-for", "loop": k, "pattern": P, "iter": E,
                          "why": "rustc's own desugaring; Verus `for` cannot contain `continue`"})
 
-    ITER_ADAPTERS = ("filter", "map", "filter_map", "skip_while", "take_while", "enumerate", "copied", "cloned")
+    ITER_ADAPTERS = ("filter", "map", "filter_map", "skip_while", "take_while", "enumerate", "copied", "cloned", "skip")
 
     def desugar_iter_chain(self, anchor_src, nth, elem, out="__out", call=None):
         """SRC.a1(c1).a2(c2)...[.collect()]  ==>  { let mut out: Vec<ELEM> = Vec::new(); for __x0 in SRC { .. } out }
@@ -704,6 +704,9 @@ class Item:
                 if a != c:
                     raise LostAnchor("desugar-iter-chain: %s with arguments" % name)
                 stages.append((name, None, None))
+            elif name == "skip":
+                # skip(EXPR): the first EXPR items that reach this stage are dropped
+                stages.append((name, None, T[a:c]))
             else:
                 if T[a].s == "move":
                     a += 1
@@ -723,7 +726,7 @@ class Item:
             pos = c + 1
         if not stages:
             raise LostAnchor("desugar-iter-chain: no supported adapter follows `%s` in %s" % (" ".join(pat), self.path))
-        if pos + 1 < len(T) and T[pos].s == "." and T[pos + 1].s in ("rev", "zip", "chain", "flat_map", "flatten", "skip", "take", "step_by", "peekable", "scan", "inspect"):
+        if pos + 1 < len(T) and T[pos].s == "." and T[pos + 1].s in ("rev", "zip", "chain", "flat_map", "flatten", "take", "step_by", "peekable", "scan", "inspect"):
             raise LostAnchor("desugar-iter-chain: unsupported adapter .%s in %s" % (T[pos + 1].s, self.path))
         terminal = None
         if pos + 1 < len(T) and T[pos].s == "." and T[pos + 1].s == "collect":
@@ -767,21 +770,31 @@ class Item:
         has_enum = any(st[0] == "enumerate" for st in stages)
         if has_enum:
             pre += sc(" let mut __n: usize = 0;")
+        nsk = 0
         for st in stages:
             if st[0] == "skip_while":
                 pre += sc(" let mut __sw%d: bool = true;" % nsw)
                 nsw += 1
+            if st[0] == "skip":
+                pre += sc(" let mut __sk%d: usize = 0; let __skn%d: usize =" % (nsk, nsk)) + [Tok(" " if not t.ws else t.ws, t.s, t.line) for t in st[2]] + sc(";")
+                nsk += 1
         src = [Tok(t.ws, t.s, t.line) for t in T[h:h + len(pat)]]
         src[0].ws = " "
         body = []
         closers = 0
         k = 0
         sw = 0
+        skc = 0
         for (name, ptoks, btoks) in stages:
             x = "__x%d" % k
             if name == "enumerate":
                 body += sc("\n let __x%d = (__n, %s); __n = __n + 1;" % (k + 1, x))
                 k += 1
+                continue
+            if name == "skip":
+                body += sc("\n if __sk%d < __skn%d { __sk%d = __sk%d + 1; } else {" % (skc, skc, skc, skc))
+                skc += 1
+                closers += 1
                 continue
             if name in ("copied", "cloned"):
                 # Copy types only in the code we extract (&'static str, integers): `*x`
